@@ -30,7 +30,7 @@ def build(run=None):
 
 
 def cx_args(family, op, params, ins, k):
-    a = [family, f"op={op}", f"k={k}"]
+    a = [family, f"op={op}"] + ([f"k={k}"] if k else [])
     if ins:
         a.append("in=" + ":".join(hex(x) for x in ins))
     for kk, vv in params.items():
@@ -164,22 +164,14 @@ def decide(run, ob, family, op, params, ins, spec, k=10, timeout=60, drop=(), mo
     # ---- side obligations: lemmas the spec hands to the main query must be valid ----
     if e.side:
         t_side = time.time()
-        # group by identical declarations; each group is one query: (or (not L1) (not L2) ...) unsat
-        for i in range(0, len(e.side), 64):
-            chunk = e.side[i:i + 64]
-            parts = ["(set-logic ALL)"]
-            disj = []
-            for j, (nm, decls, body) in enumerate(chunk):
-                ren = lambda s_: s_.replace(" v ", f" v{j} ").replace("(v ", f"(v{j} ").replace(" v)", f" v{j})").replace(" b ", f" b{j} ").replace(" b)", f" b{j})").replace("(b ", f"(b{j} ")
-                for dcl in decls:
-                    parts.append(ren(dcl.replace("declare-const v ", f"declare-const v{j} ").replace("declare-const b ", f"declare-const b{j} ")))
-                disj.append(f"(not {ren(body)})")
-            parts.append("(assert (or false " + " ".join(disj) + "))")
-            rs = solvers.solve("\n".join(parts), timeout=timeout)
+        # each side obligation is a closed formula with its own declarations: prove validity (negation unsat)
+        for (nm, decls, body) in e.side:
+            qs = "\n".join(["(set-logic ALL)"] + list(decls) + [f"(assert (not {body}))"])
+            rs = solvers.solve(qs, timeout=timeout)
             ob.queries += 1
             ob.solver_s += rs.time_s
             if rs.status != "unsat":
-                return ob.set(INCONCLUSIVE, f"a lemma supplied by the specification is not valid / not proved ({chunk[0][0]}..): {rs.status}")
+                return ob.set(INCONCLUSIVE, f"a lemma supplied by the specification is not valid / not proved ({nm}): {rs.status}")
     names = sorted(set(e.vars.values()))
     ob.sample = dict(op=op, params={k_: str(v)[:40] for k_, v in params.items()}, vars=len(names),
                      gates=len(d["gates"]), lookups=sum(len(l["inputs"]) for l in d["lookups"]))
@@ -271,6 +263,7 @@ def decide(run, ob, family, op, params, ins, spec, k=10, timeout=60, drop=(), mo
 
 
 def pstr(params):
+    params = {k: v for k, v in params.items() if k != "prog"}
     return ",".join(f"{k}={(hex(v)[:14] + '..') if isinstance(v, int) and v > 10**9 else (str(v) if not isinstance(v, (list, tuple)) else 'list' + str(len(v)))}" for k, v in sorted(params.items()))
 
 
@@ -309,6 +302,21 @@ def run_family(run, family, entries, timeout=60, workers=8, only=None, engine="C
             import traceback
             ob.set(INCONCLUSIVE, f"engine error: {ex!r} {traceback.format_exc()[-400:]}")
         # alternative honest inputs: concrete runs of the real chip (not the deciding step)
+        if ob.status == HOLDS and ent.get("alt_params"):
+            try:
+                for ap in ent["alt_params"]:
+                    s2 = extract(family, ent["op"], ap, ent["ins"], ent["k"])
+                    if not s2.d.get("honest_verify"):
+                        ob.key = ob.key + ":honest-rejected"
+                        path = run.write_replay(ob, dict(kind="honest-rejected", cx=cx_args(family, ent["op"], ap, ent["ins"], ent["k"])))
+                        ob.set(VIOLATION, f"real MockProver rejects the honest witness of {ent['op']} ({pstr(ap)})", replay=path)
+                        break
+            except ExtractPanic as ex:
+                ob.key = ob.key + ":honest-panics"
+                ob.set(VIOLATION, f"the real synthesis/witness generation panics on admissible inputs: {ex}",
+                       replay=run.write_replay(ob, dict(kind="honest-panics", cx=cx_args(family, ent["op"], ap, ent["ins"], ent["k"]))))
+            except ExtractError as ex:
+                ob.set(INCONCLUSIVE, f"alt input extraction failed: {ex}")
         if ob.status == HOLDS and ent.get("alt"):
             try:
                 base = structure_hash(extract(family, ent["op"], ent["params"], ent["ins"], ent["k"]))
